@@ -94,8 +94,11 @@ def run_nm(rng, obs):
         if int(sfc) >= (maxfun if maxfun is not None else dim * 200) or int(fcm) >= (maxfun if maxfun is not None else dim * 200):
             obs.event('scipy_not_comparable_maxfun_hit')
             raise ImportError
+        haszero = 0.0 in x0      # scipy displaces zero entries by exactly 0.00025, mystic by 0.00025 to one ulp: on kinked objectives the two
+        if haszero:              # trajectories part company, so scipy is no second opinion there (the reference model, which is, still decides)
+            obs.event('scipy_not_comparable_zero_start')
+            raise ImportError
         obs.event('scipy_second_opinion')
-        haszero = 0.0 in x0      # scipy displaces zero entries by exactly 0.00025: trajectories agree to rounding, not to the bit
         obs.check((haszero or (int(sit) == int(itm) and int(sfc) == int(fcm))) and vclose(sx, xm, 1e-6) and (close(sf, fm, 1e-6) or (haszero and abs(float(sf) - float(fm)) <= 1e-6 * (1 + abs(float(fm))))),
                   'nm:agrees with scipy.optimize.fmin (minimiser, minimum, iteration and evaluation counts)',
                   scipy=[list(map(float, np.ravel(sx))), float(sf), int(sit), int(sfc)], mystic=[list(map(float, xm)), float(fm), int(itm), int(fcm)], **ctx)
